@@ -435,3 +435,11 @@ LEVEL_NOTE = ("Theorems are about the model (Model/Lexer.lean). The based-litera
               "1e-15 claim is corresponded and checked by the oracle, not proved. Characters outside the model alphabet (e.g. Unicode "
               "whitespace/numeric characters) are tested against the oracle on the real code only.")
 TECHNIQUE = "Lean 4 proofs by induction over the input + generated token table (kernel decide) + exhaustive/differential correspondence"
+
+
+# ---- refinement lemmas of the unified pipeline model for this property (Props/Pipeline2.lean): the fragment this check's
+# theorems are about IS what the whole-program model computes on the fragment's sub-language
+import pipeline as _pl
+LEAN_MODULES = LEAN_MODULES + [m for m in _pl.LEAN_MODULES2 if m not in LEAN_MODULES]
+THEOREMS = THEOREMS + [t for t in _pl.THEOREMS2.get(ID, []) if t not in THEOREMS]
+GEN = GEN + [g for g in _pl.GEN if g not in GEN]
